@@ -3,6 +3,7 @@ package props
 import (
 	"fmt"
 	"reflect"
+	"regexp"
 	"sort"
 	"strings"
 	"testing"
@@ -168,6 +169,17 @@ func c16AllIRIs(x interface{}, into map[string]bool) {
 	walk(reflect.ValueOf(x), 0)
 }
 
+var (
+	c16TypedNil = regexp.MustCompile(`\(\*\w+\)nil`)
+	c16NilField = regexp.MustCompile(` \w+:nil\b`)
+)
+
+// c16NilNorm writes a dump with every nil pointer as the nil item and without the properties that hold nothing: a property holding
+// a nil *Actor and the same property holding nil say the same (a list of one nil pointer becomes the pointer, then nil).
+func c16NilNorm(dump string) string {
+	return c16NilField.ReplaceAllString(c16TypedNil.ReplaceAllString(dump, "nil"), "")
+}
+
 // c16Entries lists the flatten entry points applicable to a Go type.
 func c16Apply(entry string, x ap.Item) ap.Item {
 	switch entry {
@@ -312,12 +324,12 @@ func c16Check(entry string, x ap.Item) (ds []keyed, flatCount int) {
 	}
 	// idempotence
 	if len(ds) == 0 {
-		once := vocab.Dump(res)
+		once := c16NilNorm(vocab.Dump(res))
 		again := vocab.CloneItem(res)
 		var res2 ap.Item
 		if pi := evSafe(func() { res2 = c16Apply(entry, again) }); pi != nil {
 			ds = append(ds, keyed{"flatten " + entry + " panic@" + pi.Frame + " second-pass", pi.Value})
-		} else if twice := vocab.Dump(res2); twice != once {
+		} else if twice := c16NilNorm(vocab.Dump(res2)); twice != once {
 			ds = append(ds, keyed{"flatten " + entry + " idempotence", "flattening twice differs from flattening once: " + clipStr(once, 400) + " vs " + clipStr(twice, 400)})
 		}
 	}
@@ -372,6 +384,10 @@ func c16Shapes(c *vocab.Counter) []vocab.Shaped {
 		mk("typeless-idless", &ap.Object{Name: ap.DefaultNaturalLanguageValue("#tag")}),
 		mk("link", &ap.Link{Type: ap.MentionType, Href: c.ID("h")}),
 		mk("link-id", &ap.Link{ID: c.ID("l"), Type: ap.LinkType, Href: c.ID("h")}),
+		// a nil pointer of a vocabulary type: nothing, and left as it is
+		mk("nil-ptr:Actor", (*ap.Actor)(nil)),
+		mk("nil-ptr:Object", (*ap.Object)(nil)),
+		mk("list-with-nil-ptr", ap.ItemCollection{c.ID("before"), (*ap.Actor)(nil), &ap.Object{ID: c.ID("after"), Type: ap.NoteType}}),
 		// lists in positions that usually hold one item
 		mk("list-dup-iris", ap.ItemCollection{ap.IRI("https://example.com/dup/a"), ap.IRI("https://example.com/dup/b"), ap.IRI("https://example.com/dup/a")}),
 		mk("list1-idless", ap.ItemCollection{&ap.Object{Type: ap.NoteType, Name: ap.DefaultNaturalLanguageValue("only member")}}),
@@ -382,7 +398,7 @@ func c16Shapes(c *vocab.Counter) []vocab.Shaped {
 func TestC16(t *testing.T) {
 	r := ev.Open(t, "C16")
 	defer r.Close(t)
-	r.Rule("positions: every flattened position (actor, object, target, result, origin, instrument, replies, likes, shares, attributedTo) x 13 shapes (IRI, objects of several types with id in pointer and " +
+	r.Rule("positions: every flattened position (actor, object, target, result, origin, instrument, replies, likes, shares, attributedTo) x 16 shapes (IRI, nil pointers alone and in a list, objects of several types with id in pointer and " +
 		"value form, id-less objects, links with and without id, lists with a repeated IRI / one id-less member / an object and an IRI) through FlattenProperties and the typed helpers; lists: all lists of length <= 4 over {IRI a, object a, object b, id-less object, nil, a followers collection with members, an empty collection with id} in " +
 		"every addressee property and in attributedTo; random: random values with decoys at positions that must not be flattened. Oracle: deep copy with exactly the embedded non-collection objects that " +
 		"have an id replaced by IRI(id) (repeated mentions in lists may or may not be dropped), every other property bit-identical, no IRI in the result that was not in the original, flatten twice == once. " +
@@ -461,6 +477,8 @@ func TestC16(t *testing.T) {
 					OrderedItems: ap.ItemCollection{ap.IRI("https://example.com/actors/x"), &ap.Actor{ID: "https://example.com/actors/y", Type: ap.PersonType}}}
 			case 6:
 				return &ap.Collection{ID: "https://example.com/groups/g/members", Type: ap.CollectionType}
+			case 9:
+				return (*ap.Actor)(nil) // a nil pointer among the addressees: left as it is, its neighbours are flattened
 			case 7:
 				return ap.IRI("https://example.com/actors/a?page=1") // another identity than actors/a: only the query differs
 			case 8:
@@ -503,6 +521,9 @@ func TestC16(t *testing.T) {
 			}
 		}
 		buildNear(nil)
+		for _, cb := range [][]int{{9}, {9, 1}, {1, 9}, {0, 9, 2}, {9, 9, 2}, {2, 4, 9, 1}} {
+			combos = append(combos, cb)
+		}
 		total, done := 0, 0
 		for _, fn := range append(append([]string{}, c16Lists...), "AttributedTo") {
 			for _, tg := range []target{targets[0], targets[4]} {
